@@ -421,8 +421,8 @@ package parse
 //@   ensures result.(*node).tree == n.tree && result.(*node).stmt == n.stmt && result.(*node).NodeType == n.NodeType && result.(*node).Pos == n.Pos
 //@   ensures implies(m != nil, result.(*node).useTree == m.(*node).tree) && implies(m == nil, result.(*node).useTree == n.useTree)
 //@   ensures len(result.(*node).children) == len(n.children) && isfresh(result.(*node).children)
-//@   loop 0 invariant len(t0.children) == loopidx + 1 && isfresh(t0.children) && t0.tree == n.tree && t0.stmt == n.stmt && t0.NodeType == n.NodeType && t0.Pos == n.Pos
-//@   loop 0 invariant implies(m != nil, t0.useTree == m.(*node).tree) && implies(m == nil, t0.useTree == n.useTree)
+//@   loop 0 invariant len(copy.children) == loopidx + 1 && isfresh(copy.children) && copy.tree == n.tree && copy.stmt == n.stmt && copy.NodeType == n.NodeType && copy.Pos == n.Pos
+//@   loop 0 invariant implies(m != nil, copy.useTree == m.(*node).tree) && implies(m == nil, copy.useTree == n.useTree)
 
 // Prefix resolution: the empty prefix and the module's own prefix denote the module of definition; any other
 // prefix must be the prefix of one of ITS imports; an unknown prefix is an error (unless unknown modules are skipped).
